@@ -241,7 +241,7 @@ def feature_sets(W, H, mode):
     raise HarnessError(mode)
 
 
-P3 = ((0, 1), (1, 2), (1, 1))
+P3 = ((0, 1), (1, 2), (1, 1), (3, 10))      # 3/10: a probability that is not a dyadic fraction
 PH = ((1, 2),)
 
 # (W, H, goal mode, feature mode, fence probabilities)
